@@ -541,6 +541,9 @@ func refAnswer(recs []refRec, declared bool, tag int, name string) (string, bool
 				}
 				return i64s(int64(v)), n, ""
 			case "SInt32":
+				if v > math.MaxUint32 { // does not fit the field's value range (like Int32 / UInt32)
+					return "", 0, "of"
+				}
 				return i64s(int64(int32(protowire.DecodeZigZag(uint64(uint32(v)))))), n, ""
 			case "UInt64":
 				return u64s(v), n, ""
